@@ -99,6 +99,7 @@ func (c08) Gen(dt *drv.T, c *Ctx) any {
 			rs.Inv = []*Stmt{{Op: "if", Cond: genCond(dt), Body: []*Stmt{genSig(dt, nonFatalKinds)}}}
 		}
 	}
+	rs.Shared = rs.SM == "" && chance(dt, "sharedmap", 30)
 	p.Body = append(p.Body, rs)
 	if chance(dt, "postdraw", 30) {
 		p.Body = append(p.Body, &Stmt{Op: "draw", Label: "after", Gen: &GenSpec{K: "bool"}})
@@ -263,6 +264,9 @@ func (c08) Run(c *Ctx, csAny any) Outcome {
 			out.Viol = violf("C08:panic-escaped", "a panic escaped rapid.Check: %v", obs.Escaped)
 			return out
 		}
+	}
+	if rs.Shared {
+		classes["actions-map-reused-by-every-invocation"] = true
 	}
 	if rs.SM != "" {
 		classes["StateMachineActions-"+rs.SM] = true
